@@ -92,7 +92,12 @@ def run(tier, work):
             ncrash += 1
             sig = dict(sig, efun=last[0].get("efun"))
             verdict.add(sig, [json.dumps(last[0])], "driver failure in file efun %s path hex %s" % (last[0].get("efun"), last[0].get("hex")), raw=raw)
-    if open(sentinel).read() != "must never be touched\n" or open(os.path.join(os.path.dirname(root), "x")).read() != "outside\n":
+    def intact(path, text):     # the driver may have replaced it by anything (a directory, nothing at all)
+        try:
+            return os.path.isfile(path) and not os.path.islink(path) and open(path).read() == text
+        except OSError:
+            return False
+    if not intact(sentinel, "must never be touched\n") or not intact(os.path.join(os.path.dirname(root), "x"), "outside\n"):
         verdict.add({"kind": "sentinel"}, [], "a file outside the mudlib directory was modified")
     rootabs = os.path.realpath(root)
     projs = []
